@@ -471,9 +471,17 @@ class Constraints:
                         for a in args:
                             # name <= a   <=>   a - name >= 0
                             self.ge.append((a - Lin({f.name: 1}), repr(f)))  # type: ignore[operator]
+        # boolean locals: `flag = len(xs) != 1` makes a later test of `flag` a test of the comparison
+        bool_eq = {
+            f.name: f.expr
+            for f in facts
+            if f.kind == "eq" and isinstance(f.expr, ast.Compare)
+        }
         for f in facts:
             if f.kind == "cond":
                 self._add_cond(f.expr, f.pol, repr(f))
+                if isinstance(f.expr, ast.Name) and f.expr.id in bool_eq:
+                    self._add_cond(bool_eq[f.expr.id], f.pol, f"{repr(f)} where {f.expr.id} = {unparse(bool_eq[f.expr.id])}")
         # len(x) >= 0 for every len atom mentioned
         atoms = {a for lin, _ in self.ge for a in lin.terms}
         for a in atoms:
